@@ -25,7 +25,21 @@ theorem splice_describes (le : Bytes → Bytes → Bool) (lim srcStart dstStart 
   SpliceMeta.splice_describes le lim srcStart dstStart src ps h
 
 -- hypothesis satisfiable, conclusion computed (dictionary page + two data pages, one of them null)
+example : Describes exLe 8 (exMeta 4) 4 exPages := exMeta_describes
 example : spliceChunkV (exMeta 4) 1000 = some { exMeta 1000 with encStats := [⟨0, 8, 2⟩, ⟨2, 0, 1⟩] } := by decide
+
+/-- Source written under one `ColumnIndexSizeLimit`, destination configured with another (`limB`):
+    the length check of `statisticsSettingsMatch` on the source's column index values is enough for
+    the spliced metadata to describe the pages under the DESTINATION's limit (bounds stay bounds —
+    they are position and configuration independent — and no entry exceeds `limB`). Joins
+    `Props.C11.verbatim_conforms` (settings, on lengths) with the value level. -/
+theorem splice_describes_limit (le : Bytes → Bytes → Bool) (limA limB srcStart dstStart : Nat) (src : FullMeta) (ps : List PageV)
+    (h : Describes le limA src srcStart ps)
+    (hlim : limB > 0 → ∀ b ∈ src.columnIndex.minValues ++ src.columnIndex.maxValues, b.length ≤ limB) :
+    ∃ m, spliceChunkV src dstStart = some m ∧ Describes le limB m dstStart ps :=
+  SpliceMeta.splice_describes_limit le limA limB srcStart dstStart src ps h hlim
+
+example : ∀ b ∈ (exMeta 4).columnIndex.minValues ++ (exMeta 4).columnIndex.maxValues, b.length ≤ 1 := by decide
 
 /-- Offset index and column index of a spliced chunk stay aligned: the output has one rebased page
     location per data page (`specLocs` = true start, size, first row of every data page at the
